@@ -171,6 +171,15 @@ VCrMap(ev) ==
        ELSE LET want == SubSeq(cb, a + 1, b) IN
             Ok(Bases(o[2]) = (IF rs = "-" THEN Reverse(want) ELSE want)
                /\ St(o[2]) = RelStrand(rs, FlipIf(minus, St(ex))), "transcript-interval-to-chunk")]),
+    \* the same for sub-intervals of the CODING sequence (optional 13th field), through the transcript's and the CDS's own method
+    IF Len(ev) < 13 THEN "ok" ELSE FirstBad([k \in DOMAIN ev[13] |->
+       LET a == ev[13][k][1] b == ev[13][k][2] rs == ev[13][k][3] o == ev[13][k][4] IN
+       IF ~coding THEN Ok(Rejected(o), "noncoding-rejects-cds-calls")
+       ELSE IF ~(0 <= a /\ a < b /\ b <= Len(ccb)) THEN Ok(Rejected(o) \/ (IsVal(o) /\ LenLoc(o[2]) = 0), "cds-interval-to-chunk:refuses-outside")
+       ELSE IF ~IsVal(o) THEN "cds-interval-to-chunk:returns"
+       ELSE LET want == SubSeq(ccb, a + 1, b) IN
+            Ok(Bases(o[2]) = (IF rs = "-" THEN Reverse(want) ELSE want)
+               /\ St(o[2]) = RelStrand(rs, FlipIf(minus, St(ex))), "cds-interval-to-chunk")]),
     IF ~coding THEN Ok(Rejected(sc[5]) /\ Rejected(sc[6]) /\ Rejected(sc[7]) /\ Rejected(sc[8]), "noncoding-rejects-cds-calls")
     ELSE FirstBad(<<
       Ok(IsVal(sc[5]) /\ sc[5][2] = MinStart(cds) /\ IsVal(sc[6]) /\ sc[6][2] = MaxEnd(cds), "cds-start-end"),
